@@ -6,7 +6,9 @@
 The expected behaviour is NOT computed here: TLC evaluates spec/FMachine.tla (Trace_FMachine)."""
 import os
 import re
+import random
 import subprocess
+import threading
 from fractions import Fraction
 
 from .core import MachineryError
@@ -63,6 +65,50 @@ def unit(name, args, decls, body, kind='subroutine', result='', host=''):
 
 
 # ----------------------------------------------------------------------------- renderer
+# Case mixing: Fortran is case-insensitive.  Inside `with casemixing(seed):` (or render(prog, casemix=seed) /
+# prog['casemix'] = seed) every OCCURRENCE of an identifier that goes through ident() - variables, dummies, DO
+# variables, associate names, procedure / module names, the kind parameter - is spelled lower / UPPER / Capitalised
+# at random (deterministic per seed and text).  Keywords, intrinsic names, literals and raw text are left alone.
+# The abstract program (what the machine sees) is unchanged.  The state is thread-local (renders run in threads).
+_CASE = threading.local()
+INTRINSIC_NAMES = {'abs', 'mod', 'modulo', 'max', 'min', 'sign', 'int', 'nint', 'real', 'merge', 'present', 'size', 'lbound',
+                   'ubound', 'sum', 'maxval', 'minval'}
+
+
+def ident(name):
+    rng = getattr(_CASE, 'rng', None)
+    if rng is None or name in _CASE.keep:
+        return name
+    r = rng.random()
+    return name if r < 0.34 else name.upper() if r < 0.67 else name.capitalize()
+
+
+class casemixing:
+    """Context manager: identifiers rendered inside are case mixed with random.Random(seed); seed None = no change
+    (an enclosing context stays in force).  `seed` may also be a random.Random (a seed is drawn from it).
+    Names in `keep` are always spelled as given."""
+
+    def __init__(self, seed, keep=()):
+        self.seed = seed.getrandbits(32) if isinstance(seed, random.Random) else seed
+        self.keep = frozenset(keep)
+
+    def __enter__(self):
+        self.old = (getattr(_CASE, 'rng', None), getattr(_CASE, 'keep', frozenset()))
+        if self.seed is not None:
+            _CASE.rng = random.Random(self.seed)
+            _CASE.keep = self.keep
+        return self
+
+    def __exit__(self, *exc):
+        _CASE.rng, _CASE.keep = self.old
+        return False
+
+
+def kinded(text):
+    """Type / literal text with the kind parameter jprb spelled through ident()."""
+    return text.replace('jprb', ident('jprb')) if getattr(_CASE, 'rng', None) is not None else text
+
+
 PREC = {'or': 1, 'and': 2, 'not': 3, 'cmp': 4, 'sum': 5, 'neg': 5, 'prod': 6, 'quot': 6, 'pow': 7}
 
 
@@ -73,15 +119,16 @@ def rx(e, parent=0, right=False):
     if k == 'int':
         return str(e['v'])
     if k == 'real':
-        return real_lit(Fraction(e['n'], e['d']))
+        return kinded(real_lit(Fraction(e['n'], e['d'])))
     if k == 'log':
         return '.true.' if e['v'] else '.false.'
     if k == 'var':
-        return e['name']
+        return ident(e['name'])
     if k == 'arr':
-        return f"{e['name']}({', '.join(rsub(s) for s in e['c'])})"
+        return f"{ident(e['name'])}({', '.join(rsub(s) for s in e['c'])})"
     if k == 'call':
-        return f"{e['f']}({', '.join(rx(c) for c in e['c'])})"
+        fn = e['f'] if e['f'] in INTRINSIC_NAMES else ident(e['f'])
+        return f"{fn}({', '.join(rx(c) for c in e['c'])})"
     if k == 'par':
         return '(' + rx(e['c'][0]) + ')'
     p = PREC[k]
@@ -145,7 +192,7 @@ TYPES = {'int': 'integer', 'real': 'real(kind=jprb)', 'log': 'logical'}
 
 
 def rdecl(d, is_arg):
-    attrs = [TYPES[d['type']]]
+    attrs = [kinded(TYPES[d['type']])]
     if is_arg and d['intent'] in ('in', 'out', 'inout'):
         attrs.append(f"intent({d['intent']})")
     dims = ''
@@ -161,7 +208,7 @@ def rdecl(d, is_arg):
     if d['init'] != NONE and not is_arg:
         # a declaration initialiser would imply SAVE: locals are initialised by statements instead
         raise MachineryError('initialisers are rendered as statements')
-    return f"{', '.join(attrs)} :: {d['name']}{dims}{init}"
+    return f"{', '.join(attrs)} :: {ident(d['name'])}{dims}{init}"
 
 
 def rstmts(ss, ind, style):
@@ -186,11 +233,11 @@ def rstmts(ss, ind, style):
         elif k == 'do':
             st = '' if s['st'] == NONE else ', ' + rx(s['st'])
             if s.get('label'):
-                out.append(f"{pad}do {s['label']} {s['var']} = {rx(s['lo'])}, {rx(s['hi'])}{st}")
+                out.append(f"{pad}do {s['label']} {ident(s['var'])} = {rx(s['lo'])}, {rx(s['hi'])}{st}")
                 out += rstmts(s['body'], ind + 2, style)
                 out.append(f"{s['label']:<{max(ind, 1)}} continue".replace('  continue', ' continue') if ind else f"{s['label']} continue")
             else:
-                out.append(f"{pad}do {s['var']} = {rx(s['lo'])}, {rx(s['hi'])}{st}")
+                out.append(f"{pad}do {ident(s['var'])} = {rx(s['lo'])}, {rx(s['hi'])}{st}")
                 out += rstmts(s['body'], ind + 2, style)
                 out.append(f'{pad}end do')
         elif k == 'while':
@@ -208,13 +255,13 @@ def rstmts(ss, ind, style):
                 out += rstmts(s['default'], ind + 2, style)
             out.append(f'{pad}end select')
         elif k == 'call':
-            out.append(f"{pad}call {s['name']}({', '.join(rx(a) for a in s['args'])})")
+            out.append(f"{pad}call {ident(s['name'])}({', '.join(rx(a) for a in s['args'])})")
         elif k == 'print':
             out.append(f"{pad}print *, {', '.join(rx(i) for i in s['items'])}")
         elif k == 'prints':
             out.append(f"{pad}print '(A)', '" + s['text'].replace("'", "''") + "'")
         elif k == 'assoc':
-            pairs = ', '.join(f'{n} => {rx(t)}' for n, t in zip(s['names'], s['targets']))
+            pairs = ', '.join(f'{ident(n)} => {rx(t)}' for n, t in zip(s['names'], s['targets']))
             out.append(f'{pad}associate ({pairs})')
             out += rstmts(s['body'], ind + 2, style)
             out.append(f'{pad}end associate')
@@ -239,9 +286,9 @@ def rstmts(ss, ind, style):
 
 def render_unit(u, prog, ind=2, style=None):
     pad = ' ' * ind
-    args = ', '.join(u['args'])
-    head = f"{pad}subroutine {u['name']}({args})" if u['kind'] == 'subroutine' else \
-        f"{pad}function {u['name']}({args}) result({u['result']})"
+    args = ', '.join(ident(a) for a in u['args'])
+    head = f"{pad}subroutine {ident(u['name'])}({args})" if u['kind'] == 'subroutine' else \
+        f"{pad}function {ident(u['name'])}({args}) result({ident(u['result'])})"
     lines = [head]
     for d in u['decls']:
         lines.append(pad + '  ' + rdecl(d, d['name'] in u['args']))
@@ -251,21 +298,25 @@ def render_unit(u, prog, ind=2, style=None):
         lines.append(pad + 'contains')
         for x in inner:
             lines += render_unit(x, prog, ind + 2, style)
-    lines.append(f"{pad}end {u['kind']} {u['name']}")
+    lines.append(f"{pad}end {u['kind']} {ident(u['name'])}")
     return lines
 
 
 RENDERERS = {}     # prog['renderer'] -> function(prog) -> text: module layouts owned by lib_fm_<topic> modules
 
 
-def render(prog, modname='kmod', style=None):
+def render(prog, modname='kmod', style=None, casemix=None):
+    """casemix: seed (int) or random.Random for case-mixed identifiers (see casemixing); default prog.get('casemix');
+    prog.get('casemix_keep') lists names that keep their spelling."""
     if prog.get('renderer'):
-        return RENDERERS[prog['renderer']](prog)
-    lines = [f'module {modname}', '  implicit none', '  integer, parameter :: jprb = selected_real_kind(13, 300)', 'contains']
-    for u in prog['units']:
-        if not u['host']:
-            lines += render_unit(u, prog, 2, style)
-    lines.append(f'end module {modname}')
+        with casemixing(casemix, prog.get('casemix_keep', ())):
+            return RENDERERS[prog['renderer']](prog)      # topic renderers honour prog['casemix'] themselves
+    with casemixing(casemix if casemix is not None else prog.get('casemix'), prog.get('casemix_keep', ())):
+        lines = [f'module {ident(modname)}', '  implicit none', f"  integer, parameter :: {ident('jprb')} = selected_real_kind(13, 300)", 'contains']
+        for u in prog['units']:
+            if not u['host']:
+                lines += render_unit(u, prog, 2, style)
+        lines.append(f'end module {ident(modname)}')
     return '\n'.join(lines) + '\n'
 
 
